@@ -5,7 +5,7 @@
 From Coq Require Import Reals List Bool ZArith QArith.
 Import ListNotations.
 From GA.Model Require Import DnaCount DnaDist.
-From GA.Proofs Require Import DnaProofs.
+From GA.Proofs Require Import DnaProofs GammaProofs.
 Local Open Scope R_scope.
 
 (* the K80 formula as arranged in the code is the published one *)
@@ -52,13 +52,56 @@ Theorem C07_counts_identical :
 Proof. intros. apply count_diffs_from_refl. Qed.
 Print Assumptions C07_counts_identical.
 
-(* Kept as statements (not proved here): the same inequalities for the gamma
-   variants and for F84/TN93; symmetry of the transition/transversion counter.
-   Every sampled matrix entry is additionally certified against the modelled
-   closed form by the interval tactic (Cases/C07_cert_*.v), and every entry is
-   judged against the clauses of the property by Corr/C07.v spec_check. *)
-Definition C07_gamma_at_least_p_statement : Prop :=
-  forall a p, 0 < a -> 0 <= p < 3/4 -> p <= jc_gamma a p.
+(* The same inequality for the gamma-corrected variants and for F84 / TN93 (over the reals, for every
+   admissible argument): a corrected distance is never below the observed proportion of differences.
+   a (x^(-1/a) - 1) >= - ln x >= 1 - x does all the work. *)
+Theorem C07_gamma_at_least_plain :
+  (forall a p, 0 < a -> p < 3/4 -> jc p <= jc_gamma a p) /\
+  (forall b1 a p, 0 < b1 -> 0 < a -> p < b1 -> f81 b1 p <= f81_gamma b1 a p) /\
+  (forall a P Q, 0 < a -> 0 < 1 - 2 * P - Q -> 0 < 1 - 2 * Q -> k2p P Q <= k2p_gamma a P Q).
+Proof. split; [exact jc_gamma_ge_jc | split; [exact f81_gamma_ge_f81 | exact k2p_gamma_ge_k2p]]. Qed.
+Print Assumptions C07_gamma_at_least_plain.
+
+Theorem C07_gamma_at_least_p :
+  (forall a p, 0 < a -> 0 <= p < 3/4 -> p <= jc_gamma a p) /\
+  (forall b1 a p, 0 < b1 -> 0 < a -> 0 <= p < b1 -> p <= f81_gamma b1 a p) /\
+  (forall a P Q, 0 < a -> 0 <= P -> 0 <= Q -> 0 < 1 - 2 * P - Q -> 0 < 1 - 2 * Q -> P + Q <= k2p_gamma a P Q).
+Proof. split; [exact jc_gamma_ge_p | split; [exact f81_gamma_ge_p | exact k2p_gamma_ge_p]]. Qed.
+Print Assumptions C07_gamma_at_least_p.
+
+(* F84 (a, b, c computed from the base frequencies; a - b - c <= 0 holds for every positive frequency
+   vector summing to 1) and its gamma variant *)
+Theorem C07_f84_at_least_p :
+  forall a b c P Q,
+  0 < a -> 0 < c -> a - b - c <= 0 ->
+  0 < 1 - P / (2 * a) - (a - b) * Q / (2 * a * c) -> 0 < 1 - Q / (2 * c) ->
+  P + Q <= f84 a b c P Q /\ (forall al, 0 < al -> P + Q <= f84_gamma al a b c P Q).
+Proof.
+  intros a b c P Q Ha Hc Habc H1 H2. split; [apply f84_ge_p; assumption|].
+  intros al Hal. apply f84_gamma_ge_p; assumption.
+Qed.
+Print Assumptions C07_f84_at_least_p.
+
+Theorem C07_f84_coefficient :
+  forall pa pc pg pt, 0 < pa -> 0 < pc -> 0 < pg -> 0 < pt -> pa + pc + pg + pt = 1 ->
+  f84_a pa pc pg pt - f84_b pa pc pg pt - f84_c pa pc pg pt <= 0.
+Proof. exact f84_coeff_nonpos. Qed.
+Print Assumptions C07_f84_coefficient.
+
+(* TN93 and its gamma variant: Q transversions, p1 / p2 the two kinds of transitions *)
+Theorem C07_tn93_at_least_p :
+  forall pa pc pg pt Q p1 p2,
+  0 < pa -> 0 < pc -> 0 < pg -> 0 < pt -> pa + pc + pg + pt = 1 ->
+  0 < 1 - Q / (2 * (pc + pt) * (pa + pg)) ->
+  0 < 1 - Q / (2 * (pa + pg)) - (pa + pg) * p1 / (2 * (pa * pg)) ->
+  0 < 1 - Q / (2 * (pc + pt)) - (pc + pt) * p2 / (2 * (pc * pt)) ->
+  Q + p1 + p2 <= tn93 pa pc pg pt Q p1 p2 /\
+  (forall al, 0 < al -> Q + p1 + p2 <= tn93_gamma al pa pc pg pt Q p1 p2).
+Proof.
+  intros pa pc pg pt Q p1 p2 Ha Hc Hg Ht Hs H1 H2 H3. split; [apply tn93_ge_p; assumption|].
+  intros al Hal. apply tn93_gamma_ge_p; assumption.
+Qed.
+Print Assumptions C07_tn93_at_least_p.
 
 Example C07_nonvacuous :
   count_diffs [1; 2; 4; 8; 0]%Z [1; 2; 8; 5; 1]%Z [true; true; true; true; true] None false = (2 # 1, 4 # 1)%Q.
